@@ -49,9 +49,9 @@ def jobs_for(tier, rng):
             # make high action indices attractive so that the greedy action index exceeds 255
             for s_ in range(m["ns"]):
                 for a in range(na):
-                    m["rew"][s_][a] = [(a * 7 + s_) % 10 + (5 if a > 256 else 0)]
+                    m["rew"][s_][a] = [(a * 7 + s_) % 10 + (40 if a >= 256 else 0)]
             job = {"mdp": m, "kind": kind, "gamma": [1, 2], "eps": [1, 1], "test": "span", "calls": [40], "cert": True,
-                   "mbs": 1024, "tag": f"{kind}-na{na}"}
+                   "mbs": 1024, "tag": f"{kind}-na{na}", "min_pick": 257}
             if kind == "PI":
                 job["max_eval_iter"] = 30
                 pi.append(job)
